@@ -185,6 +185,8 @@ func fillAttrs(i int, m pcommon.Map) {
 		m.PutInt("min", math.MinInt64)
 		m.PutDouble("inf", math.Inf(1))
 		m.PutDouble("tiny", 5e-324)
+		m.PutDouble("neg", -2.5)
+		m.PutInt("negi", -5)
 		m.PutStr("u", "é日本\u0000")
 		m.PutEmptyBytes("big").FromRaw(make([]byte, 300))
 	}
@@ -211,7 +213,7 @@ func sid(b byte) pcommon.SpanID {
 
 // ---- spans -------------------------------------------------------------------
 
-const NumSpan = 26
+const NumSpan = 27
 
 func fillSpan(i int, sp ptrace.Span) {
 	if i >= WildBase {
@@ -333,6 +335,16 @@ func fillSpan(i int, sp ptrace.Span) {
 			fillAttrs(7, e.Attributes())
 		}
 		fillAttrs(7, sp.Attributes())
+	case 26: // uniform groups: every event has the same name and attribute, every link the same trace id and attribute
+		for k := 0; k < 2; k++ {
+			e := sp.Events().AppendEmpty()
+			e.SetName("e1")
+			fillAttrs(7, e.Attributes())
+			l := sp.Links().AppendEmpty()
+			l.SetTraceID(tid(7))
+			fillAttrs(7, l.Attributes())
+		}
+		fillAttrs(7, sp.Attributes())
 	case 25: // three links, each with the same single attribute
 		sp.SetSpanID(sid(7))
 		for k := 0; k < 3; k++ {
@@ -431,7 +443,7 @@ func rampTraces(td ptrace.Traces, r *Ramp) {
 
 // ---- logs ----------------------------------------------------------------------
 
-const NumLog = 23
+const NumLog = 24
 
 func fillLog(i int, lr plog.LogRecord) {
 	if i >= WildBase {
@@ -506,6 +518,10 @@ func fillLog(i int, lr plog.LogRecord) {
 		lr.Body().SetStr("1")
 	case 22: // single attribute, equal across records
 		fillAttrs(7, lr.Attributes())
+	case 23: // negative numbers
+		lr.Body().SetDouble(-1.5)
+		lr.Attributes().PutInt("n", -7)
+		lr.Attributes().PutDouble("d", -0.5)
 	}
 }
 
@@ -576,7 +592,7 @@ func (l Letter) BuildLogs() plog.Logs {
 
 // ---- metrics ---------------------------------------------------------------------
 
-const NumMetric = 42
+const NumMetric = 45
 
 func exemplar(e pmetric.Exemplar, kind int) {
 	switch kind {
@@ -815,6 +831,30 @@ func fillMetric(i int, m pmetric.Metric) {
 			dp.SetIntValue(int64(k))
 			fillAttrs(7, dp.Attributes())
 		}
+	case 42: // negative values before any positive one: summary sum and quantile value
+		dp := m.SetEmptySummary().DataPoints().AppendEmpty()
+		dp.SetCount(1)
+		dp.SetSum(-4.5)
+		q := dp.QuantileValues().AppendEmpty()
+		q.SetQuantile(0.5)
+		q.SetValue(-1.5)
+	case 43: // negative explicit bounds, negative sum/min/max
+		dp := m.SetEmptyHistogram().DataPoints().AppendEmpty()
+		dp.SetCount(3)
+		dp.BucketCounts().FromRaw([]uint64{1, 1, 1})
+		dp.ExplicitBounds().FromRaw([]float64{-2, -1})
+		dp.SetSum(-3)
+		dp.SetMin(-2.5)
+		dp.SetMax(-0.5)
+	case 44: // negative number points and exemplar values
+		g := m.SetEmptyGauge()
+		dp := g.DataPoints().AppendEmpty()
+		dp.SetDoubleValue(-1.5)
+		e := dp.Exemplars().AppendEmpty()
+		e.SetDoubleValue(-2.5)
+		dp = g.DataPoints().AppendEmpty()
+		dp.SetIntValue(-3)
+		dp.Exemplars().AppendEmpty().SetIntValue(-4)
 	case 41: // histogram points with equal single attribute and exemplars with equal single attribute
 		h := m.SetEmptyHistogram()
 		for k := 0; k < 3; k++ {
